@@ -334,6 +334,13 @@ func (c *ctx) refToLib(what string, in, stream []byte, crc bool, src lzwork.Sour
 		res.Total == int64(len(in)) && bytes.Equal(res.Out, in) {
 		c.o.Count("canonical_streams_decoded_by_library", 1)
 		c.o.Count("bytes_compared", int64(len(in)))
+		if res.ClosedTwice {
+			c.o.Count("canonical_streams_closed_twice", 1)
+			if lzwork.SaysCorrupt(res.Close2Err) {
+				c.violate("lib-close-error:second-close", map[string]any{"direction": "reference->library", "input": what, "mode": m, "source": src},
+					"%s: canonical stream decoded to the right %d bytes and Close returned nil, a second Close on the same Reader calls the stream corrupt: %v", what, len(in), res.Close2Err)
+			}
+		}
 		if len(in) > 0 {
 			c.o.Sig("r2l|%s|%d|%x", m, len(in), hashOf(in))
 		}
